@@ -221,9 +221,13 @@ def formatter_oracle(ctx: Ctx):
     for k, st in enumerate([" lead", "trail ", "  both  ", "it's \"q\"", "'a' \"", "    if x:", "\ttab ", "x\n "]):
         forms = [f"def test_a():\n    assert ['a', {st!r}, 'b'] == snapshot(['a', 'b'])\n", f"def test_a():\n    for x in ('x', {st!r}):\n        assert x in snapshot(['x'])\n",
                  f"def test_a():\n    assert ('a', {st!r}) == snapshot(('a',))\n", f"def test_a():\n    assert {{'k': 1, {st!r}: {st!r}}} == snapshot({{'k': 1}})\n",
-                 f"def test_a():\n    s = snapshot({{'k': 1}})\n    assert s['k'] == 1\n    assert s[{st!r}] == {st!r}\n"]
+                 f"def test_a():\n    s = snapshot({{'k': 1}})\n    assert s['k'] == 1\n    assert s[{st!r}] == {st!r}\n",
+                 # ... and strings that REPLACE an existing leaf (fix of ==, of a bound, of a dict value, of a keyword argument)
+                 f"def test_a():\n    assert {st!r} == snapshot('a')\n    assert [{st!r}, 1] == snapshot(['a', 1])\n",
+                 f"def test_a():\n    assert {st!r} >= snapshot('zz')\n    assert {{'k': {st!r}}} == snapshot({{'k': 'a'}})\n"]
         progs.append({"source": "from inline_snapshot import snapshot\n\n\n" + forms[k % len(forms)]})
         progs.append({"source": "from inline_snapshot import snapshot\n\n\n" + forms[(k + 2) % len(forms)]})
+        progs.append({"source": "from inline_snapshot import snapshot\n\n\n" + forms[5 + k % 2]})
     res = pmap(run_fmt, [(p["source"],) for p in progs], chunksize=2)
     for p, r in zip(progs, res):
         ctx.count(("fmt", p["source"]), True, n=3)
